@@ -21,6 +21,7 @@ RULE = ('Exhaustive: for file sets of n = 1..5 (quick: 4 file sets; thorough: n 
         'result[i] == calc_file_signature(files[i]) and the right k-mer spec; a supplied executor is not shut down; if the single-file '
         'computation of some file raises, the whole call raises. Non-trivial: completion order differs from submission order, or a '
         'real pool with size skew, or a fault; enumerated schedules are distinct by construction, generated cases by hash.')
+RULE += ' Further: well-formed inputs without sequence data; read failures of 16 exception classes injected at SequenceFile.parse in three phases (call, enter, after the first record).'
 ASSUMPTIONS = ['with real thread/process pools the OS decides the completion order (sampled); only the ordered/instant executors own it']
 ENUMERATED = {'quick': ['all n! completion orders for n = 1..5 on 4 file sets (612 schedules)'],
               'thorough': ['all n! completion orders for n = 1..6 on 10 file sets (8730 schedules)']}
